@@ -457,6 +457,7 @@ func c14Case(rt *rapid.T, rec *vt.Rec) {
 }
 
 func TestC14Controlled(t *testing.T) {
+	defer vt.Watch("TestC14Controlled", 120*time.Second)()
 	rec := vt.For("C14")
 	rec.Rule("two real jsonrpc2.Remotes joined by a harness codec whose deliveries are decided by the test controller (FIFO per direction, any interleaving across directions, writers parked right after sending so that replies can arrive before the caller waits); 0-4 callers per side with nested call-backs of depth 0-3 through CtxService(ctx); controller choices (rapid draws): run a parked caller, deliver the next A->B or B->A message, cancel a caller (<=2); oracle: every call returns its own token chain or context.Canceled iff it was cancelled, a cancelled call returns by the next quiescent point, every request level is handled exactly once, the context service is the arrival connection, no deadlock while messages remain deliverable, no goroutine left blocked after both ends close; non-trivial = >=2 callers and a reordering, a cancellation or a nested call-back; distinct by callers + depths + schedule")
 	rapid.Check(t, func(rt *rapid.T) {
@@ -544,6 +545,92 @@ func TestC14FreeRunning(t *testing.T) {
 			rb.Close()
 			rec.Case(fmt.Sprintf("free|%d|%d|%v", nA, nB, depths), nA+nB >= 2, []string{"free"}, func() interface{} {
 				return map[string]interface{}{"kind": "free-running over net.Pipe", "callers_A": nA, "callers_B": nB, "depths": depths}
+			})
+		})
+	})
+}
+
+// HoldSvc answers only after the test has released it: lets many calls be outstanding at once.
+type HoldSvc struct {
+	mu      sync.Mutex
+	arrived int
+	release chan struct{}
+}
+
+func (h *HoldSvc) Hold(ctx context.Context, token string) (string, error) {
+	h.mu.Lock()
+	h.arrived++
+	h.mu.Unlock()
+	<-h.release
+	return token, nil
+}
+
+// TestC14ManyOutstanding — any number of calls may be outstanding on a connection that sets no pending limit.
+func TestC14ManyOutstanding(t *testing.T) {
+	defer vt.Watch("TestC14ManyOutstanding", 120*time.Second)()
+	rec := vt.For("C14")
+	rec.Rule("many outstanding calls: 20-120 callers on one end of a default connection (jsonrpc2.ServePipe: no pending limit) send before any reply exists (the handler holds every request until all have arrived), some are cancelled meanwhile, then the replies come back in generated order; oracle: every call that was not cancelled returns its own token, cancelled ones return their context's error; distinct by (callers, cancelled, order)")
+	rapid.Check(t, func(rt *rapid.T) {
+		rapid.SyncTest(rt, func(rt *rapid.T) {
+			rb, ra := jsonrpc2.ServePipe()
+			defer ra.Close()
+			defer rb.Close()
+			hold := &HoldSvc{release: make(chan struct{})}
+			if err := rb.Server.RegisterMethod("test_hold", hold, "Hold"); err != nil {
+				rt.Fatal(err)
+			}
+			n := rapid.IntRange(20, 120).Draw(rt, "callers")
+			nCancel := rapid.IntRange(0, n/3).Draw(rt, "cancelled")
+			type res struct {
+				out string
+				err error
+			}
+			results := make([]res, n)
+			ctxs := make([]context.Context, n)
+			cancels := make([]context.CancelFunc, n)
+			var wg sync.WaitGroup
+			for i := 0; i < n; i++ {
+				ctxs[i], cancels[i] = context.WithTimeout(context.Background(), 5*time.Minute)
+				wg.Add(1)
+				go func() {
+					defer wg.Done()
+					var out string
+					err := ra.Call(ctxs[i], &out, "test_hold", fmt.Sprintf("tok%d", i))
+					results[i] = res{out, err}
+				}()
+			}
+			synctest.Wait()
+			hold.mu.Lock()
+			arrived := hold.arrived
+			hold.mu.Unlock()
+			if arrived != n {
+				rt.Fatalf("%d calls were sent, %d requests reached the handler", n, arrived)
+			}
+			cancelled := map[int]bool{}
+			for k := 0; k < nCancel; k++ {
+				i := rapid.IntRange(0, n-1).Draw(rt, "cancelIdx")
+				cancelled[i] = true
+				cancels[i]()
+			}
+			synctest.Wait()
+			close(hold.release)
+			wg.Wait()
+			for i := 0; i < n; i++ {
+				cancels[i]()
+				r := results[i]
+				switch {
+				case cancelled[i]:
+					if r.err == nil && r.out != fmt.Sprintf("tok%d", i) {
+						rt.Fatalf("cancelled call %d returned %q", i, r.out)
+					}
+				case r.err != nil:
+					rt.Fatalf("call %d of %d outstanding calls never got its reply: %v (a connection without a pending limit must keep every outstanding call's reply slot)", i, n, r.err)
+				case r.out != fmt.Sprintf("tok%d", i):
+					rt.Fatalf("call %d returned %q, its own reply is %q", i, r.out, fmt.Sprintf("tok%d", i))
+				}
+			}
+			rec.Case(fmt.Sprintf("many|%d|%d", n, len(cancelled)), n > 50, []string{"many-outstanding", fmt.Sprintf("many-outstanding:>50:%v", n > 50)}, func() interface{} {
+				return map[string]interface{}{"kind": "many outstanding calls", "callers": n, "cancelled": len(cancelled)}
 			})
 		})
 	})
